@@ -99,6 +99,12 @@ def parse_pipeline(ctx, rule):
     # only option restricts: nest_limit); octal / ignore_whitespace / empty_min_range accept more texts or read them differently
     cfg = [M.short_name(M.call_name(t)) for bb, t in ps_.calls(r"ast::parse::ParserBuilder::|ast::parse::ParserBuilder as ")]
     badcfg = [c for c in cfg if not re.search(r"ParserBuilder::(new|build|nest_limit)$|Default>::default$|Clone>::clone$", c)]
+    # nest_limit may only *lower* the default of 250: the conversions recurse once per nesting level, so the parser's limit is
+    # what bounds their stack depth (a build on a thread with a small stack aborts the process — under the cache lock)
+    for bb_, t_ in ps_.calls(r"ast::parse::ParserBuilder::nest_limit$"):
+        e_ = M.Prov(ps_).operand(t_["args"][1]) if len(t_["args"]) > 1 else ("unk", "")
+        if not (e_[0] == "const" and isinstance(e_[2], int) and e_[2] <= 250):
+            badcfg.append("ParserBuilder::nest_limit(%s) — above the default of 250 or not a constant" % (e_[1] if e_[0] == "const" else M.expr_str(e_)[:40]))
     ctx.ob(rule, "parser:default-configuration", not badcfg, "parser options set: %s" % (badcfg or "none (default syntax)"), ps_.loc())
     ctx.ob(rule, "parser:both-outcomes", seen_p == {"err", "ok"}, "outcomes %s" % sorted(seen_p), ps_.loc())
 
